@@ -22,7 +22,7 @@ func init() {
 	core.Register(&core.Check{
 		ID:    "C21",
 		Level: "exploration",
-		Rule: "every transforming operation of the API (optimize, rotate, trim, collect, insert/remove pages, keywords, properties, page layout/mode, viewer preferences, boxes add/remove, crop, resize, zoom, text/image/PDF stamps and watermarks + removal, annotations add/remove, bookmarks add/remove/import, attachments add/remove, n-up, grid, booklet, merge, zip-merge, import images onto a PDF, encrypt x4 algorithms, decrypt, change passwords, set permissions, form fill/lock/unlock/reset/remove fields, split spans, n-down/poster/cut parts) x a grid of valid parameter values per operation (2-12 variants, full product per operation) x inputs that pass validation (quick: 6 = flat, nested+inherited, per-page attributes, object-stream input with filters, outline+attachment, a form; thorough: the whole C19 family + form + stamped + encrypted-then-decrypted); oracle: success => the re-read output passes pdfcpu's relaxed validation (with the password where encrypted); an operation that fails is not judged here; " +
+		Rule: "every transforming operation of the API (optimize, rotate, trim, collect, insert/remove pages, keywords, properties, page layout/mode, viewer preferences, boxes add/remove, crop, resize, zoom, text/image/PDF stamps and watermarks + removal, annotations add/remove, bookmarks add/remove/import, attachments add/remove, n-up, grid, booklet, merge, zip-merge, import images onto a PDF, encrypt x4 algorithms, decrypt, change passwords, set permissions, form fill/lock/unlock/reset/remove fields, split spans, n-down/poster/cut parts) x a grid of valid parameter values per operation (2-12 variants, full product per operation) x inputs that pass validation (quick: 6 = flat, nested+inherited, per-page attributes, object-stream input with filters, outline+attachment, a form, shared indirect page attributes, referenced stream lengths, and four hand-built documents in other producers' style: AcroForm, multi-level name tree, outline with named destinations, metadata with XMP; thorough: the whole C19 family + form + stamped + encrypted-then-decrypted); oracle: success => the re-read output passes pdfcpu's relaxed validation (with the password where encrypted); an operation that fails is not judged here; " +
 			"non-trivial = every successful case",
 		Run: runC21,
 	})
@@ -361,6 +361,21 @@ func runC21(r *core.R) {
 		return
 	}
 	inputs = append(inputs, input{"form", form.Bytes()})
+	// documents structured the way other producers write them
+	fbm := []pdfcpu.Bookmark{{Title: "One", PageFrom: 1, Kids: []pdfcpu.Bookmark{{Title: "Two", PageFrom: 2}}}, {Title: "Three", PageFrom: 3}}
+	inputs = append(inputs,
+		input{"foreign:acroform", docgen.ForeignForm("classic")},
+		input{"foreign:name-tree (1 (1 1 1))", c39TreeDoc(ntShape{Kids: []ntShape{{Leaf: 1}, {Kids: []ntShape{{Leaf: 1}, {Leaf: 1}, {Leaf: 1}}}}}, []string{"b.txt", "d.txt", "f.txt", "h.txt"})},
+		input{"foreign:outline named destinations", c36ForeignOutline(fbm, "named-name-tree-array")},
+		input{"foreign:metadata", c35ForeignDoc()},
+	)
+	if r.Quick() {
+		for _, f := range docgen.Family(true) {
+			if f.Name == "numbering=dense,extra=shared-indirect-attrs/classic" || f.Name == "numbering=dense,extra=none/indirect-lengths" {
+				inputs = append(inputs, input{f.Name, f.Bytes})
+			}
+		}
+	}
 	for _, in := range inputs {
 		if err := api.Validate(bytes.NewReader(in.b), newConf()); err != nil {
 			r.HarnessError("input %s does not validate: %v", in.name, err)
